@@ -271,7 +271,7 @@ def run(tier):
     for n in (1, 2, 3):
         tasks += [(rs, True) for rs in itertools.product(roles + "Z", repeat=n)]
     tasks += [(rs, thorough) for rs in itertools.product(roles, repeat=4)]
-    n5_roles = "KYA"
+    n5_roles = "KYZA"
     if thorough:
         tasks += [(rs, False) for rs in itertools.product(n5_roles, repeat=5)]
     tasks = harness.rotate(sorted(tasks, key=lambda t: -len(t[0])))
